@@ -9,6 +9,7 @@ import "math/big"
 
 var (
 	k256, p256, pallas, vesta, ed25519, curve25519, bls12381g1, bls12381g2 *Curve
+	pallasMina, vestaMina                                                  *Curve
 
 	// sqrtM486664 is the square root of −486664 = −(A+2) used by the RFC 7748 birational map, with
 	// the sign that sends the edwards25519 base point to the curve25519 base point (9, v) of RFC 7748.
@@ -58,6 +59,18 @@ func init() {
 	vesta.A, vesta.B = big.NewInt(0), big.NewInt(5)
 	vesta.N, vesta.H = pallasP, big.NewInt(1)
 	vesta.G = Point{X: new(big.Int).Sub(vestaP, bigOne), Y: big.NewInt(2)}
+
+	// Mina uses the same two curves with the generator (1, y), y² = 1 + 5 = 6 (o1-labs mina-curves
+	// crate, G_GENERATOR_X / G_GENERATOR_Y; Mina signature specification for pallas). The
+	// self-tests re-derive y by solving y² = 6 and check the order.
+	pm := *pallas
+	pm.Name = "pallas/mina"
+	pm.G = Point{X: big.NewInt(1), Y: decInt("12418654782883325593414442427049395787963493412651469444558597405572177144507")}
+	pallasMina = &pm
+	vm := *vesta
+	vm.Name = "vesta/mina"
+	vm.G = Point{X: big.NewInt(1), Y: decInt("11426906929455361843568202299992114520848200991084027513389447476559454104162")}
+	vestaMina = &vm
 
 	// --- edwards25519: RFC 8032 §5.1 / RFC 7748 §4.1: −x² + y² = 1 + d x² y², d = −121665/121666,
 	// p = 2^255 − 19, L = 2^252 + 27742317777372353535851937790883648493, cofactor 8,
@@ -141,6 +154,14 @@ func Pallas() *Curve { return pallas }
 // Vesta returns the Pasta curve vesta.
 func Vesta() *Curve { return vesta }
 
+// PallasMina returns pallas with Mina's generator (1, y) instead of Zcash's (−1, 2): same curve,
+// same group, different G — so ScalarBaseMul, ECDSASign/Verify and SchnorrEquation differ.
+// (Not included in All(); ByName("pallas/mina") finds it.)
+func PallasMina() *Curve { return pallasMina }
+
+// VestaMina returns vesta with the generator (1, y) of the o1-labs mina-curves crate.
+func VestaMina() *Curve { return vestaMina }
+
 // Ed25519 returns edwards25519 (RFC 8032), a twisted Edwards curve with cofactor 8.
 func Ed25519() *Curve { return ed25519 }
 
@@ -160,7 +181,7 @@ func All() []*Curve {
 
 // ByName looks a curve up by Name; nil if unknown.
 func ByName(name string) *Curve {
-	for _, c := range All() {
+	for _, c := range append(All(), pallasMina, vestaMina) {
 		if c.Name == name {
 			return c
 		}
